@@ -1271,7 +1271,9 @@ class tensor:
          [2 4]]
         """
         order = parse_one_d(order)
-        if self.ndims != order.size:
+        if self.ndims != order.size or np.any(
+            np.sort(order) != np.arange(0, self.ndims)
+        ):
             assert False, "Invalid permutation order"
 
         # If order is empty, return
